@@ -25,7 +25,8 @@ RULE = ("memories of 0-12 episodes over a small alphabet of owners / ids / vecto
         "cap in {0,1,tight,loose}; one seeded PRNG per component; a case is non-trivial when it hits at least one branch tag "
         "(dedupe across tiers, early stop, threshold tie, scope filter, rerank reorder, residual cap ...); distinct by canonical JSON")
 ASSUMPTIONS = [
-    "sequential in-memory path: perf.enabled = false, t2.cache.enabled = false, reader/parallel/LanceDB paths off (cache is C05's)",
+    "exact model = the sequential in-memory path: perf.enabled = false, t2.cache.enabled = false, reader/LanceDB paths off (cache is C05's); "
+    "the parallel (sharded) path is driven by component t2par and checked by the spec-level Lean monitors only",
     "ctx.now is a valid ISO timestamp not later than the wall clock (missing/unparsable episode timestamps are read by the code as wall-clock now)",
     "k_retrieval >= 1 (enforced by configs/validate.py); ids, owners, labels, texts are ASCII strings in the exact stream",
     "cosine / centroid cosine / BM25 / tokenisation / md5 cluster ids / ISO parsing are oracles (same values given to both sides)",
@@ -47,7 +48,10 @@ CLAIM = {
              "append); model and C11_residual_cap_sorted follow the repaired loop, C11_residual_cap_unpatched_violates is the machine-checked witness against "
              "the old loop, corpus/C11/t2__residual_cap_zero.json the failing input. Covered only by correspondence: numpy cosine/centroid, BM25 + tokenisation, NFKC/unicode lowercasing, ISO parsing, md5 cluster ids, "
              "the exact float arithmetic of the combined score / hybrid bonus / reciprocal-rank fusion / Jaccard MMR (compared bit-for-bit, not proved). "
-             "Not modelled: LanceDB backend, embed-store reader, parallel shards, T2 cache (C05)."),
+             "Parallel T2 path (perf.parallel gate open, >= 2 shards, 2-8 workers): not modelled exactly; component t2par evaluates the Lean monitors (count, distinct ids, scope, "
+             "threshold, recency/archive rule, order, rerank = permutation, used = take t2_k, residual soundness/cap/completeness) on its T2Result; the global top-m cluster rule is waived "
+             "there (monTierPar; recorded finding C09:t2:cluster-tier-per-shard) and exact outputs are not compared (C09:t2:qscore-tie-at-k-cut). "
+             "Not modelled: LanceDB backend, embed-store reader, T2 cache (C05)."),
     "technique": "Lean 4 proofs (filters, stable insertion sort, permutation lemmas, loop invariants) + exact correspondence with oracle tables + Lean monitors on the real T2Result",
     "design_ref": "DESIGN.md §4 C11",
 }
@@ -405,7 +409,11 @@ def make_cfg(case: dict) -> dict:
                     "fusion": {"mode": q["mode"], "alpha_semantic": b2f(q["alpha_semantic"])},
                     "mmr": {"enabled": q["mmr_enabled"], "lambda": b2f(q["mmr_lambda"]), "k": q["mmr_k"]}},
     }
-    return {"t2": t2, "perf": {"enabled": False}, "k_surface": 8}
+    perf: Dict[str, Any] = {"enabled": False}
+    if case.get("par"):
+        # parallel T2 gate: perf.parallel.enabled + perf.parallel.t2 + max_workers > 1 (+ more than one shard)
+        perf["parallel"] = {"enabled": True, "t2": True, "max_workers": int(case["par"]["workers"])}
+    return {"t2": t2, "perf": perf, "k_surface": 8}
 
 
 def _refs(lst) -> List[dict]:
@@ -425,7 +433,8 @@ def run_real(case: dict) -> Tuple[dict, dict]:
     from clematis.engine.types import T1Result
 
     real = bool(case.get("real"))
-    rec: Dict[str, Any] = {"pre": None, "post": None, "hin": None, "hout": None, "lex": {}, "mmr_calls": 0}
+    rec: Dict[str, Any] = {"pre": None, "post": None, "hin": None, "hout": None, "lex": {}, "mmr_calls": 0,
+                           "par": False, "shards": 0}
     cos_seen: Dict[bytes, float] = {}
     orig_cos = mindex._cosine
 
@@ -472,6 +481,14 @@ def run_real(case: dict) -> Tuple[dict, dict]:
             raise _Boom("injected")
         return orig_mmr(fused, qcfg)
 
+    orig_merge = getattr(core, "_merge_tier_hits_across_shards", None)
+
+    def merge_rec(shard_hits, tiers, k):
+        sh = list(shard_hits)
+        rec["par"] = True
+        rec["shards"] = len(sh)
+        return orig_merge(sh, tiers, k)
+
     orig_bm25 = qops._bm25_scores
 
     def bm25_scripted(query, items, k1, b, stopset, qcfg):
@@ -503,6 +520,8 @@ def run_real(case: dict) -> Tuple[dict, dict]:
     t1 = T1Result(graph_deltas=[], metrics={})
     pairs = [(core, "_apply_quality", aq_rec), (quality, "rerank_with_gel", h_rec),
              (qops, "fuse", fuse_f), (qops, "maybe_apply_mmr", mmr_f)]
+    if orig_merge is not None:
+        pairs.append((core, "_merge_tier_hits_across_shards", merge_rec))
     if real:
         pairs.append((qops, "_bm25_scores", bm25_rec))
     else:
@@ -522,6 +541,7 @@ def run_real(case: dict) -> Tuple[dict, dict]:
         "residualOps": sorted({str(d.get("op")) for d in res.graph_deltas_residual}),
         "hybridUsed": bool(m.get("hybrid_used", False)),
         "combMax": f2b(float((m.get("score_stats") or {}).get("max", 0.0))),
+        "par": rec["par"], "shards": rec["shards"],
     }
     if real:
         from clematis.adapters.embeddings import BGEAdapter
@@ -681,6 +701,78 @@ class T2RealComp(T2Comp):
         return c
 
 
+class T2ParComp(T2Comp):
+    """The REAL `t2_semantic` with the parallel T2 gate open (>= 2 shards, 2-8 workers): the result of the
+    sharded fan-out + cross-shard merge must satisfy the same spec-level Lean monitors (at most k hits, distinct
+    ids, scope, threshold, recency window / archive rule, final order, rerank = permutation, used = take t2_k,
+    residual soundness / cap).  MONITORS ONLY: the exact model is the sequential walk, and the parallel path differs
+    from it in two recorded ways (C09:t2:cluster-tier-per-shard, C09:t2:qscore-tie-at-k-cut), so exact outputs are
+    not compared and the global top-m cluster rule is waived (`monTierPar`)."""
+    name = "t2par"
+    budget = {"quick": 700, "thorough": 15000, "search": 6000}
+    deciding = False
+
+    def gen(self, rng: random.Random, i: int) -> dict:
+        c = gen_case(rng, i)
+        c["par"] = {"workers": rng.choice([2, 2, 3, 4, 8])}
+        if rng.random() < 0.55:
+            # an earlier tier that yields j < k hits, a later tier with more fresh hits than the remaining room
+            now = dt.datetime(2025, 9, 1, tzinfo=dt.timezone.utc)
+            k = rng.choice([2, 3, 3, 4, 5])
+            j = rng.randrange(1, k)
+            n_old = (k - j) + rng.choice([1, 2, 3, 5])
+            owner = c["agent"] if _scope_code(c["scope"]) == 1 and c["agent"] else \
+                "world" if _scope_code(c["scope"]) == 2 else rng.choice(["A", "B"])
+            ids = ["r%d" % x for x in range(j)] + ["o%d" % x for x in range(n_old)]
+            eps = []
+            for x, eid in enumerate(ids):
+                off = rng.choice([0, 1, 5, 29]) if x < j else rng.choice([31, 60, 100, 364, 400])
+                e = {"id": eid, "owner": owner if rng.random() < 0.85 else rng.choice(["A", "B", "C", "world"]),
+                     "text": " ".join(rng.choice(VOCAB) for _ in range(rng.choice([1, 2, 3]))),
+                     "ts": (now - dt.timedelta(days=off)).isoformat().replace("+00:00", "Z"),
+                     "vec": rng.choice([[1.0, 0.0, 0.0], [0.0, 1.0, 0.0], [1.0, 1.0, 0.0], [2.0, 0.0, 1.0], [1.0, 2.0, 3.0]]),
+                     "aux": {"importance": f2b(rng.choice([0.5, 0.0, 1.0])), "cluster_id": rng.choice(["c1", "c2", "c3"])}}
+                eps.append(e)
+            rng.shuffle(eps)
+            c.update({"eps": eps, "k": k, "days": 30, "theta": f2b(-1.0),
+                      "tiers": rng.choice([["exact_semantic", "archive"], ["exact_semantic", "archive"],
+                                           ["exact_semantic", "cluster_semantic", "archive"],
+                                           ["exact_semantic", "cluster_semantic"]]),
+                      "lex": {e["id"]: f2b(rng.choice([0.0, 1.0, 2.5])) for e in eps},
+                      "edges": [ed for ed in c["edges"] if False]})
+        return c
+
+    def compare(self, case, impl_out, model_out):
+        return None   # monitors only: the exact model is the sequential walk
+
+    def monitor_requests(self, case, impl_out) -> List[Tuple[str, dict]]:
+        if "raised" in impl_out:
+            return []
+        cj = self._request(case)
+        out = {"hits": impl_out["hits"], "pre": impl_out["pre"] or [], "hin": impl_out["hin"] or [],
+               "hout": impl_out["hout"] or [], "kUsed": max(0, impl_out["kUsed"]), "residual": impl_out["residual"]}
+        which = ["count", "scope", "threshold", "tier_par", "used", "residual", "residual_complete"]
+        if "cluster_semantic" not in case["tiers"]:
+            which.append("complete")
+        if impl_out["pre"] is not None:
+            which += ["order", "perm"]
+        if impl_out["hin"] is not None and impl_out["hout"] is not None:
+            which.append("hybrid")
+        return [(w, {"c": "t2.mon", "which": w, "case": cj, "out": out}) for w in which]
+
+    def tags(self, case, impl_out):
+        t = super().tags(case, impl_out)
+        if "raised" in impl_out:
+            return t
+        t = [x for x in t if x != "default"]
+        if impl_out.get("par"):
+            t.append("parallel_path")
+            t.append("shards:%d" % min(impl_out.get("shards", 0), 8))
+        else:
+            t.append("sequential_fallback")
+        return sorted(t)
+
+
 class T2IdxComp(Component):
     """`InMemoryIndex._search_with_episodes` alone (one tier, explicit hints incl. archive quarters)."""
     name = "t2idx"
@@ -776,7 +868,7 @@ class T2IdxComp(Component):
             yield dict(case, eps=eps[:i] + eps[i + 1:])
 
 
-COMPONENTS = [T2Comp(), T2RealComp(), T2IdxComp()]
+COMPONENTS = [T2Comp(), T2RealComp(), T2IdxComp(), T2ParComp()]
 
 
 SEAMS = [("clematis.memory.index", "_cosine"), ("clematis.engine.stages.t2.quality_ops", "_bm25_scores"),
@@ -802,7 +894,7 @@ def _check_seams() -> None:
 def run(ctx: Ctx) -> None:
     _check_seams()
     for comp in COMPONENTS:
-        run_component(ctx, comp)
+        run_component(ctx, comp, monitors_only=isinstance(comp, T2ParComp))
 
 
 def _decanon(x: Any) -> Any:
